@@ -64,7 +64,10 @@ PROPERTIES = {
             "L + 1 < W (size_t modulus) and L < M (modulus of LengthType<L>); all size_t arguments < W",
             "pointer+count overloads that std::string also has (insert(i,p,n), find(p,pos,n), replace(it,it,p,n)): [p, p+n) readable",
             "operator[]: idx <= L (documented: undefined beyond the buffer); C strings are NUL-terminated inside their allocation",
-            "source arguments do not alias the object itself; iterator pairs denote ranges of one object",
+            "iterator pairs denote ranges of one object; a source that aliases the object itself (the object as FixedString argument, "
+            "c_str() + k, iterator pairs of the own object, sprintf of the own c_str()) is read as std::string specifies it, as a copy "
+            "of the pre-state (Model/FixedStringAlias.lean; tied by the `alias` / `self:` lines of the correspondence run); a "
+            "pointer into the own buffer that reaches BEHIND the terminator is not covered",
         ],
     },
     "C11": {
@@ -1261,6 +1264,106 @@ def overhang_cases(rng, full):
     return cases
 
 
+# ---- self-aliasing sources ----------------------------------------------------------------------------
+# `alias <op>`: the FixedString / iterator-pair argument `t` of <op> is the object `s` itself; `self:<k>`: a const char*
+# argument is `s.c_str() + k`.  std::string specifies such a source as a copy of the pre-state; the model treats every
+# source as a value (World.aliased / selfPtr in Model/FixedStringAlias.lean), the harness hands the real object itself.
+
+ALIAS_CAPS = [4, 5, 8, 15, 16, 255, 256]
+
+
+def alias_ops(rng, L, n):
+    """aliasing operations for a content of length n in a string of capacity L: positions 0/1/middle/len, sources
+    starting before, at and behind the position, counts that end before, at and behind the capacity"""
+    P = sorted({0, min(1, n), n // 2, n})
+    ops = []
+
+    def starts(p):
+        return sorted({j for j in (0, 1, p - 1, p, p + 1, p + 2, n - 1, n) if 0 <= j <= n})
+
+    def counts(j):
+        room = L - n
+        return sorted({c for c in (0, 1, 2, n - j, room - 1, room, room + 1) if 0 <= c}) + ["npos"]
+
+    def itr(a, b):
+        a, b = min(a, n), min(b, n)
+        if a > b:
+            a, b = b, a
+        if a >= n:
+            return "end", "end"
+        return str(a), ("end" if b >= n and rng.random() < 0.5 else str(b))
+
+    for p in P:
+        ops.append("alias insert_if %d t" % p)
+        for j in starts(p):
+            ops.append("insert_ip %d self:%d" % (p, j))
+            for c in counts(j):
+                ops.append("alias insert_ific %d t %d %s" % (p, j, c))
+                if c != "npos" and c <= n - j + 1:
+                    ops.append("insert_ipc %d self:%d %d" % (p, j, c))
+        for c1 in sorted({0, 1, 2, n - p, n}) + ["npos"]:
+            ops.append("alias rep_ccf %d %s t" % (p, c1))
+            for j in starts(p):
+                ops.append("alias rep_ccfc %d %s t %d" % (p, c1, j))
+                ops.append("rep_ccp %d %s self:%d" % (p, c1, j))
+                for c in counts(j):
+                    ops.append("alias rep_ccfcc %d %s t %d %s" % (p, c1, j, c))
+                    ops.append("rep_ccpc %d %s self:%d %s" % (p, c1, j, c))
+        if p < n:
+            for q in sorted({p + 1, (p + n + 1) // 2, n}):
+                f, l = str(p), ("end" if q >= n else str(q))
+                for j in starts(p):
+                    for y in sorted({j, j + 1, j + 2, n}):
+                        x2, y2 = itr(j, y)
+                        ops.append("alias rep_itit_itit %s %s %s %s" % (f, l, x2, y2))
+                    ops.append("rep_itit_p %s %s self:%d" % (f, l, j))
+                    for c in (0, 1, 2, n - j, n - j + 1):
+                        if 0 <= c <= n - j + 1:
+                            ops.append("rep_itit_pc %s %s self:%d %d" % (f, l, j, c))
+    for j in sorted({0, 1, n // 2, max(0, n - 1), n}):
+        ops += ["assign_p self:%d" % j, "set_p self:%d" % j, "append_p self:%d" % j, "add_p self:%d" % j,
+                "sprintf self:%d" % j, "sprintf2 self:%d %d" % (j, rng.choice([0, 7, 42, 123456789])),
+                "alias append_fp t %d" % j]
+        for c in counts(j):
+            ops.append("alias append_fpc t %d %s" % (j, c))
+            ops.append("append_pc self:%d %s" % (j, c))
+        for y in sorted({j, j + 1, n}):
+            ops.append("alias append_itit %s %s" % itr(j, y))
+    ops += ["alias assign_f t", "alias set_f t", "alias append_f t", "alias add_f t"]
+    return sorted(set(ops))
+
+
+def alias_cases(rng, full):
+    """a few hundred (quick) / a few thousand (thorough) aliasing operations, each on a freshly assigned content;
+    sampled with the run's PRNG from the systematic list of alias_ops()"""
+    cases = []
+    for L in ALIAS_CAPS:
+        lens = sorted({1, 3, L // 2, L - 2, L - 1, L} if L <= 16 else {3, L - 2, L})
+        for n in lens:
+            if n < 0 or n > L:
+                continue
+            # distinct neighbouring characters, so that a source read after the tail was moved shows in the content
+            X = lit(bytes(b"abcdefghijklmnopqrstuvwxyz"[(k + rng.randrange(3)) % 26] for k in range(n)))
+            ops = alias_ops(rng, L, n)
+            if L > 16:
+                ops = [o for o in ops if rng.random() < 0.5]
+            take = min(len(ops), 250) if full else min(len(ops), 9 if L <= 16 else 6)
+            picked = rng.sample(ops, take)
+            # the two documented witnesses stay in every run
+            if L == 8 and n == 3:
+                picked += ["alias insert_ific 1 t 2 1", "alias rep_ccfcc 0 2 t 1 1", "assign_p self:1", "sprintf self:0"]
+            header = ["new %d" % L]
+            lines = list(header)
+            for o in picked:
+                lines += ["assign_s s:" + X.tok(), o]
+                if len(lines) > 120:
+                    cases.append(Case("a%d.%d.%d" % (L, n, len(cases)), lines))
+                    lines = list(header)
+            if len(lines) > len(header):
+                cases.append(Case("a%d.%d.%d" % (L, n, len(cases)), lines))
+    return cases
+
+
 def generate(prop, tier, seed, scale=1):
     rng = random.Random("%s-%s" % (prop, seed))
     n = (700 if tier == "quick" else 20000) * scale
@@ -1279,6 +1382,9 @@ def generate(prop, tier, seed, scale=1):
     orng = random.Random("%s-%s-overhang" % (prop, seed))
     yield "search strings sticking out behind the end of a full or nearly full content (over-reads of the object)", \
         overhang_cases(orng, tier != "quick")
+    arng = random.Random("%s-%s-alias" % (prop, seed))
+    yield "self-aliasing sources: the object itself as FixedString argument, const char* into the own buffer, iterator pairs of the own object, sprintf of the own c_str()", \
+        alias_cases(arng, tier != "quick")
     if tier == "quick":
         yield "exhaustive L<=2 over {a,b}, args 0..L+2 u {npos}", exhaustive_cases(2, 0)
     else:
